@@ -10,6 +10,7 @@ THEOREMS = "auto"
 ASSUMPTIONS = ["model of cellsToDirectedEdge / getDirectedEdgeOrigin / getDirectedEdgeDestination / "
                "isValidDirectedEdge / originToDirectedEdges over generated bit macros, tied by exact correspondence",
                "boundary coincidence and lengths (great-circle arithmetic) are evaluated on the real library, not proved"]
+ASSUMPTIONS.append('getDirectedEdgeOrigin and isValidDirectedEdge (with isPentagon and isValidCell) are translated from the C text on every run and PROVED equal to the model functions for all 2^64 values and every value of the uninitialised local (C10Gen)')
 NOT_PROVED = ["directedEdgeToBoundary coincidence with the reverse edge within 1e-12 and with the points common to the two cells' boundaries; edgeLength = summed great-circle length"]
 EXPLANATION = ("validity predicate and encode/decode round trip are theorems (all 2^64 candidates); correspondence of "
                "all edge functions; evaluator: every (cell, neighbour) pair, non-neighbours, malformed edges, boundary "
